@@ -228,10 +228,13 @@ def run(report):
     k = 7 if tier == "quick" else 8
     texts = list(G.exhaustive(UNINDENT_ALPHABET, k))
     res = jv.pbatch([{"op": "unindent", "src": t} for t in texts], chunk=20000)
-    for t, r in zip(texts, res):
+    mres = dr.pbatch([{"op": "unindent", "src": t} for t in texts], chunk=20000)
+    for t, r, m in zip(texts, res, mres):
         kk = classify_jv(r)
         if kk:
             report.failure("c11-unindent-%s" % kk, "unindent(%r): %s" % (t, json.dumps(r)[:200]), {"op": "unindent", "src": t, "answer": r})
+        elif r.get("text") != m.get("text"):
+            report.failure("c11-unindent-model", "Lean unindent model and unindent.rs disagree", {"correspondence": "unindent (vlib/c11.py S1)", "op": "unindent", "src": t, "impl": r, "model": m}, no_input=True)
     stats["s1_unindent_texts"] = len(texts)
 
     # ---- S3 ------------------------------------------------------------------------------------
